@@ -8,7 +8,7 @@ from . import astcodec, docgen, docprops, lexcorr, parsecorr, render
 from .model import dec_str, enc_str, run_driver
 
 CLAUSE_FINDING = {
-    3: "reserved-segment", 4: "annotation-qualifier", 10: "frontmatter-sentinel",
+    3: "reserved-segment", 4: "annotation-qualifier",
     11: "bare-zone-sibling", 12: "bare-zone-comments", 13: "empty-body-comment", 14: "comment-dedent",
     15: "nonfinite-float", 18: "single-item-constraint-list",
 }
